@@ -303,6 +303,9 @@ func NewSingleHostReverseProxy(target *url.URL, without string, keepalive int, t
 		transport := &http.Transport{
 			Proxy: http.ProxyFromEnvironment,
 			Dial:  rp.dialer.Dial,
+			// (a backend that accepts the connection and never answers the
+			// ClientHello must not hold the request for ever)
+			TLSHandshakeTimeout: defaultCryptoHandshakeTimeout,
 		}
 		if httpserver.HTTP2 {
 			if err := http2.ConfigureTransport(transport); err != nil {
